@@ -25,7 +25,7 @@ def main(tier_):
     cases = []
     for a in spec["args"]:
         c = a["c"]
-        for p1 in (["argcase_new", "a", "f"] if c["cls"] in ("badfd",) else ["argcase_new"]):
+        for p1 in (["argcase_new", "a", "f"] if c["cls"] in ("badfd",) else (["argcase_new", "a", ".", "a/../a/."] if c["cls"] == "badmode" else ["argcase_new"])):
             call = dict(op="capi_arg", api="c", f=c["f"], cls=c["cls"], val=c["val"], which=c["which"], mode=c.get("mode", ""), p1=p1)
             if c["f"].startswith("proc_"):
                 call["p1"] = "status"
